@@ -227,8 +227,10 @@ def apply_op(op, ctx, model, name, v, clock):
     return None
 
 
-def make_history(n, first):
+def make_history(n, first, second_ctx=None):
     def history_case(o1, c1, n1, o2, c2, n2, o3, c3, n3, v1, v2, v3):
+        if second_ctx is not None:
+            pre(c2 == second_ctx)
         steps = [(o1, c1, n1, v1), (o2, c2, n2, v2), (o3, c3, n3, v3)][:n]
         for t in [(o1, c1, n1, v1), (o2, c2, n2, v2), (o3, c3, n3, v3)][n:]:
             pre(t[0] == 0 and t[1] == 0 and t[2] == 0 and t[3] == 0)
@@ -305,8 +307,11 @@ def harnesses():
     hs = []
     for n in (1, 2, 3):
         for first in range(len(OPS)):
+          splits = [None] if not (n == 2 and OPS[first] in ERROR_OPS) else [0, 1]
+          for sc in splits:
             hs.append(Harness(
-                id="C12.history.%d.%s" % (n, OPS[first]), fn=wrap(make_history(n, first)), group="history.%d" % n, functions=FNS,
+                id="C12.history.%d.%s%s" % (n, OPS[first], "" if sc is None else ".ctx%d" % sc), fn=wrap(make_history(n, first, sc)),
+                group="history.%d" % n, functions=FNS,
                 per_path=60, budget=200 if n == 1 else (600 if n == 2 else 6000), tier="quick" if n < 3 else "thorough",
                 require=("judged",) + (("after-error",) if OPS[first] in ERROR_OPS else ()), replay=replay_history(n, first),
                 stubs=("clock: TickClock replaces microjs.vm.time and microjs.context.time",),
